@@ -371,6 +371,9 @@ func PointIndexOK(point string) bool { panic("ghost") }
 //@ requires de != nil && field != nil
 //@ ensures[nonnil] err == nil ==> res != nil
 //@ ensures[errkind] gqlerrors.nonvacuous(err)
+// C09 "missing data": a follow-up step is answered under the key `node`; a reply without that key (no data at all
+// included) is a failure signal and must come back as an error, and a `node` that is neither null nor an object too
+//@ ensures[missing-node-reported] old(field.ExecutionRequest.QueryPlanStep.ParentType != "Query" && field.ExecutionRequest.QueryPlanStep.ParentType != "Mutation" && field.ExecutionRequest.QueryPlanStep.ParentType != "Subscription" && !has(field.Response, "node")) ==> err != nil @props C09
 //@ modifies-assumed fresh, entries(map[string]interface{}), elems(interface{}), elems(map[string]interface{})
 //@ end
 
